@@ -1,5 +1,6 @@
 (* C20 — simultaneous closes and requests never panic; they resolve as some serial order.
    This file only pins statements. *)
+From Amq Require Import Lib.RsVal Gen.SrcClose Proofs.CloseSrc Model.Close.
 From Amq Require Import Lib.Base Gen.Consts Model.Wire Model.Frames Model.OutBuf Model.Collector
      Model.Slots Model.Core Proofs.CoreInv.
 
@@ -47,6 +48,14 @@ Theorem C20_stale : forall c,
   (forall n, n <> 0 -> alookup n (c_slots c) = None ->
      handle_event c (EvChan n) = (OOk, (if c_high c <? out_len c then set_need c true else c), [])).
 Proof. exact stale_wakeups. Qed.
+
+(* THE MODEL IS THE SOURCE: Connection::close_impl of src/connection.rs as translated from the source text on every run
+   (Gen/SrcClose.v, tools/rs2sm.py) is Model/Close.v's close_impl: the close request goes out first, the I/O thread is joined,
+   a panic of the thread is IoThreadPanic, the error the thread ended with - the server's Connection.Close among them - takes
+   precedence over what the request returned, and a second call (Drop after close) does nothing (seed C20e gave the
+   request's error precedence: this obligation breaks). *)
+Theorem C20_close_source_is_model : forall (have : bool) (req : req_res) (io : io_end), gen_Connection_close_impl (ext_st_model req io) (enc_self have false) = (enc_self false (snd (close_impl have req io)), enc_res (fst (close_impl have req io))).
+Proof. exact close_source_is_model. Qed.
 
 (* non-vacuity: the witness of the repaired defect F6 - the server's Connection.Close and
    an allocation request in one batch - runs to the end without a panic, the thread is in
@@ -103,9 +112,12 @@ Check C20_stale : forall c,
   (forall n, n <> 0 -> alookup n (c_slots c) = None ->
      handle_event c (EvChan n) = (OOk, (if c_high c <? out_len c then set_need c true else c), [])).
 
+Check C20_close_source_is_model : forall (have : bool) (req : req_res) (io : io_end), gen_Connection_close_impl (ext_st_model req io) (enc_self have false) = (enc_self false (snd (close_impl have req io)), enc_res (fst (close_impl have req io))).
+
 Print Assumptions C20_no_panic.
 Print Assumptions C20_one_event.
 Print Assumptions C20_init.
 Print Assumptions C20_serial.
 Print Assumptions C20_stale.
 Print Assumptions C20_example.
+Print Assumptions C20_close_source_is_model.
